@@ -529,8 +529,9 @@ def check_band_mask(ctx, rule="R5-band-mask-on-two-sided-grid"):
         ctx.unknown(rule, key, str(ex), where); return
     if not got:
         ctx.violated(rule, key, "the spectrum is not synthesised through fftnoise", where); return
-    F = as_arr(got[0][0][0])
-    if F is None or F.ndim != 1:
+    F0 = got[0][0][0]
+    F = local_to_arr(F0) if isinstance(F0, LocalArr) else as_arr(F0)
+    if F is None or is_opaque(F) or F.ndim != 1:
         ctx.unknown(rule, key, f"spectrum {got[0][0][0]!r}"[:160], where); return
     v = F.axes[0][0]
     okn, _ = compare(F.axes[0][1], X.var("nsamp"))
